@@ -43,6 +43,9 @@ CONFINED = z3.Function('confined_to', Atom, Atom, B)
 IS_HEX = z3.Function('is_hex_string', Atom, B)
 NONEMPTY = z3.Function('nonempty', Atom, B)
 DOT_ONLY_SUFFIX = z3.Function('only_dot_is_the_wsp_suffix', Atom, B)
+# pieces of x.split(';', 1) when ';' in x: nothing is known about them beyond x == head + ';' + tail
+SPLIT_HEAD = z3.Function('before_first_semicolon', Atom, Atom)
+SPLIT_TAIL = z3.Function('after_first_semicolon', Atom, Atom)
 
 
 def axioms(ip, ctx):
@@ -100,6 +103,14 @@ def make_interp(ctx, index):
       raise EngineError("replace(%r, ..)" % (old,))
     return REPLACE_DOT(TAtom.enc(ip2, o), TAtom.enc(ip2, new))
   ip.ext[('method', 'replace')] = replace
+  def split(ip2, o, sepa=None, maxsplit=-1):
+    if sepa != ';' or maxsplit != 1:
+      raise EngineError("split(%r, %r)" % (sepa, maxsplit))
+    o = TAtom.enc(ip2, o)
+    if ip2.ctx.branch(HAS_SEMI(o), "';' in text"):
+      return PyList([SPLIT_HEAD(o), SPLIT_TAIL(o)])
+    return PyList([o])
+  ip.ext[('method', 'split')] = split
   ip.ext[('method', 'lstrip')] = lambda ip2, o, chars: LSTRIP(TAtom.enc(ip2, o), TAtom.enc(ip2, chars))
   ip.ext[('method', 'encode')] = lambda ip2, o, enc: ('utf8-bytes', o) if enc in ('utf8', 'utf-8') else (_ for _ in ()).throw(EngineError('encode'))
 
@@ -147,11 +158,12 @@ def u_encode(ctx, index):
   r2 = ip.call(ip.getattr(ip.env(U).lookup('TaggedSeries'), 'encode'), [metric], {'sep': sep, 'hash_only': hash_only})
   ctx.check('C14/encode/function', r2 == r if z3.is_expr(r2) else z3.BoolVal(False))
   # tagged names use the hash of the metric and (unless hash_only) the metric with its dots replaced
-  ctx.check('C14/encode/tagged_uses_hash_of_the_name',
+  # (informative, not an obligation of C14: the property does not fix the naming scheme)
+  ctx.check('shape/encode/tagged_uses_hash_of_the_name',
             z3.Implies(HAS_SEMI(metric),
                        r == JOIN4(sepa, ip.atom('_tagged'), SLICE(HEXDIGEST(metric), 0, 3), SLICE(HEXDIGEST(metric), 3, 6),
                                   z3.If(hash_only, HEXDIGEST(metric), REPLACE_DOT(metric, ip.atom('_DOT_'))))))
-  ctx.check('C14/encode/untagged_is_dots_replaced_then_stripped',
+  ctx.check('shape/encode/untagged_is_dots_replaced_then_stripped',
             z3.Implies(z3.Not(HAS_SEMI(metric)), r == LSTRIP(REPLACE_DOT(metric, sepa), sepa)))
 
 
@@ -198,17 +210,37 @@ def u_injective(ctx, index):
   ctx.check('C14/_getFilesystemPath/injective', p1 != p2)
 
 
+def replay_paths(model, ob):
+  import json
+  from pyvc.runner import run_native
+  if 'injective' in ob.label or 'function' in ob.label:
+    want = ('path-collision', 'path-not-deterministic')
+  else:
+    want = ('path-escapes-data-dir',)
+  rc, out, err = run_native('replay/c14_paths.py', ['--len', '5', '--comps', '8'], timeout=600)
+  for line in out.splitlines():
+    if line.startswith('BOUNDED-RESULT '):
+      r = json.loads(line[len('BOUNDED-RESULT '):])
+      for f in r['failures']:
+        if f['id'] in want:
+          return {'native_confirms': True, 'input': f, 'searched': r['evaluations']}
+      return {'native_confirms': False, 'searched': r['evaluations']}
+  return {'replay_error': (err or out)[-600:]}
+
+
 def build():
   units = [
-    Unit('util.TaggedSeries.encode', u_encode, [ENC], expect_covers=['encode/returns']),
+    Unit('util.TaggedSeries.encode', u_encode, [ENC], expect_covers=['encode/returns'], replay=replay_paths,
+         native_clauses=['C14/encode/tagged_shape']),
     Unit('database.WhisperDatabase.getFilesystemPath', u_whisper_path,
-         [DB + ':WhisperDatabase.getFilesystemPath', DB + ':WhisperDatabase._getFilesystemPath', ENC], expect_covers=['path/returns']),
+         [DB + ':WhisperDatabase.getFilesystemPath', DB + ':WhisperDatabase._getFilesystemPath', ENC], expect_covers=['path/returns'],
+         replay=replay_paths, native_clauses=['C14/_getFilesystemPath/confined']),
     Unit('C14/lemma/injective', u_injective, [ENC], expect_covers=['injective/stated']),
   ]
   return Property(
     'C14', units,
-    bounded=[Bounded('C14/A-STR/axioms_and_end_to_end', 'replay/c14_paths.py', ['--len', '5'], ['--len', '7'],
-                     "every string over the alphabet {a . / ; = ~ _} up to length 5 (quick) / 7 (thorough): each A-STR axiom against CPython, and realpath of the real _getFilesystemPath text (executed from source with a stub `whisper`) against `confined`; plus injectivity on the well-formed untagged names of that domain",
+    bounded=[Bounded('C14/A-STR/axioms_and_end_to_end', 'replay/c14_paths.py', ['--len', '5', '--comps', '7'], ['--len', '7', '--comps', '9'],
+                     "every string over the alphabet {a . / ; = ~ _} up to length 5 (quick) / 7 (thorough), and every path-like name of <= 7 / 9 components from {'..', '.', 'a', ''} joined by '/' used as untagged name, tagged series name, tag name and tag value: each A-STR axiom against CPython, and realpath of the real _getFilesystemPath text (executed from source with a stub `whisper`) against `confined`; plus injectivity on the well-formed untagged names of that domain",
                      "the axioms are assumptions about CPython's str methods and os.path (a dependency), validated on a bounded domain; they are not clauses of carbon proved by contract")],
     trusted_base=['A-ENGINE', 'A-SMT', 'A-STR'],
     assumptions=[
